@@ -16,6 +16,7 @@ import (
 	"github.com/juev/hledger-lsp/internal/include"
 	"github.com/juev/hledger-lsp/internal/lsputil"
 	"github.com/juev/hledger-lsp/internal/parser"
+	"github.com/juev/hledger-lsp/internal/verifhook"
 	"github.com/juev/hledger-lsp/internal/workspace"
 )
 
@@ -226,6 +227,8 @@ func (s *Server) DidSave(ctx context.Context, params *protocol.DidSaveTextDocume
 }
 
 func (s *Server) publishDiagnostics(ctx context.Context, docURI protocol.DocumentURI, content string) {
+	verifhook.Point("pd.start", string(docURI))
+	defer verifhook.Point("pd.done", string(docURI))
 	if s.client == nil {
 		return
 	}
@@ -245,6 +248,7 @@ func (s *Server) publishDiagnostics(ctx context.Context, docURI protocol.Documen
 	}
 	resolved, loadErrors := s.loader.LoadFromContent(path, content)
 	s.resolved.Store(docURI, resolved)
+	verifhook.Point("pd.loaded", string(docURI))
 
 	diagnostics := s.analyze(content)
 
@@ -270,6 +274,7 @@ func (s *Server) publishDiagnostics(ctx context.Context, docURI protocol.Documen
 		})
 	}
 
+	verifhook.Point("pd.publish", string(docURI))
 	_ = s.client.PublishDiagnostics(ctx, &protocol.PublishDiagnosticsParams{
 		URI:         docURI,
 		Diagnostics: diagnostics,
